@@ -98,7 +98,7 @@ def rdScalars (k : Kind) (a : Toks) (i : Nat) : Option (Array Float × Nat) :=
 /-! ### the model, per kind -/
 
 /-- does the constructor return (no panic)?  the boxes never reject; the cylinder rejects through `Circle.ToMesh`
-    (`SolidsOracle.cylinderAdmissible`, not part of `Solids.lean` yet) -/
+    (`Solids.cylinderAdmissible`) -/
 def admissible : Kind → Bool
   | .sphere r c | .sphereu r c | .hemi r c => uvAdmissible r c
   | .cyl s nt nb => cylinderAdmissible s nt nb
